@@ -200,7 +200,7 @@ def update_kwargs(op):
 
 class C09(World):
     ID = "C09"
-    RUNS = {"quick": 24000, "thorough": 1500000}
+    RUNS = {"quick": 100000, "thorough": 4000000}
     WALL = {"quick": 100.0, "thorough": 1500.0}
     BLOCK = 250
     RULE = (
@@ -664,5 +664,56 @@ class C09(World):
             out.append(p)
         return out
 
+
+def _mut_no_hash_reset():
+    from trimesh.scene.transforms import EnforcedForest
+    orig = EnforcedForest.add_edge
+
+    def add_edge(self, u, v, **kwargs):
+        keep = getattr(self, "_hash", None)
+        r = orig(self, u, v, **kwargs)
+        self._hash = keep
+        return r
+
+    EnforcedForest.add_edge = add_edge
+    return lambda: setattr(EnforcedForest, "add_edge", orig)
+
+
+def _mut_remove_keeps_paths():
+    from trimesh.scene.transforms import EnforcedForest
+    orig = EnforcedForest.remove_node
+
+    def remove_node(self, u):
+        keep = self._cache
+        r = orig(self, u)
+        self._cache = keep
+        return r
+
+    EnforcedForest.remove_node = remove_node
+    return lambda: setattr(EnforcedForest, "remove_node", orig)
+
+
+def _mut_translation_first():
+    from trimesh.scene import transforms as T
+    orig = T.kwargs_to_matrix
+
+    def k2m(matrix=None, quaternion=None, translation=None, axis=None, angle=None, **kwargs):
+        M = orig(matrix=matrix, quaternion=quaternion, translation=None, axis=axis, angle=angle)
+        if translation is not None and matrix is None:
+            M[:3, 3] += M[:3, :3] @ np.asarray(translation)
+        return M
+
+    T.kwargs_to_matrix = k2m
+    return lambda: setattr(T, "kwargs_to_matrix", orig)
+
+
+def _mut_multidot_reversed():
+    from trimesh import util
+    orig = util.multi_dot
+    util.multi_dot = lambda arrays: orig(list(arrays)[::-1])
+    return lambda: setattr(util, "multi_dot", orig)
+
+
+C09.MUTANTS = {"add_edge-keeps-hash": _mut_no_hash_reset, "remove_node-keeps-path-cache": _mut_remove_keeps_paths, "translation-in-rotated-frame": _mut_translation_first, "product-order-reversed": _mut_multidot_reversed}
 
 WORLD = C09()
